@@ -7,7 +7,7 @@
    held (vm_runs_z: ScopeEnds). *)
 From Coq Require Import String Ascii.
 From Coq Require Import ZArith List Bool Lia.
-From SqfVerif Require Import Gen.DiagCodes Gen.Overloads VM.VmDefs VM.VmExec VM.RefSem VM.C02Proofs VM.SimDefs VM.SimProofs VM.SimBlock VM.SimCtl.
+From SqfVerif Require Import Gen.DiagCodes Gen.Overloads VM.VmDefs VM.VmExec VM.RefSem VM.C02Proofs VM.SimDefs VM.SimProofs VM.SimBlock VM.SimCtl VM.SimThrowOps.
 Import ListNotations.
 Local Open Scope string_scope.
 Local Open Scope list_scope.
@@ -151,6 +151,14 @@ Inductive zev : sstate -> expr -> rvalue -> sstate -> Prop :=
 | ZSetVar s n a b ns x v s1 s2 : lower n = "setvariable" -> zev s a (RNs ns) s1 -> zev s1 b (RArr [RStr x; v]) s2 ->
     zev s (EBinary n a b) RNil (rns_set s2 ns x v)
 | ZPrivate s n a x s1 : lower n = "private" -> (forall k, a <> ENum k) -> zev s a (RStr x) s1 -> zev s (EUnary n a) RNil (declare s1 x)
+(* try {..} catch {..}: the block runs in a scope of its own; when it is left by a throw (relation zthrow below) the handler runs in
+   that scope, emptied, with _exception bound, and its value is the value of the construct *)
+| ZTryVal s n a b s1 : lower n = "try" -> (forall k, a <> ENum k) -> zev s a (RCode b) s1 -> zev s (EUnary n a) (RTry b) s1
+| ZCatchNorm s n a b body h s1 s2 out s3 : lower n = "catch" -> zev s a (RTry body) s1 -> zev s1 b (RCode h) s2 ->
+    zblock (enter s2 []) RNil body out s3 -> zev s (EBinary n a b) (val_of out) (pop_scope s3)
+| ZCatchThrow s n a b body h s1 s2 x s3 out s4 : lower n = "catch" -> zev s a (RTry body) s1 -> zev s1 b (RCode h) s2 ->
+    zthrow (enter s2 []) RNil body x s3 -> zblock (set_top_vars s3 [("_exception", x)]) RNil h out s4 ->
+    zev s (EBinary n a b) (val_of out) (pop_scope s4)
 with zevs : sstate -> list expr -> list rvalue -> sstate -> Prop :=
 | ZNil s : zevs s [] [] s
 | ZCons s e v s1 l vs s2 : zev s e v s1 -> nonnil v -> zevs s1 l vs s2 -> zevs s (e :: l) (v :: vs) s2
@@ -205,7 +213,25 @@ with zwhile : list stmt -> list stmt -> sstate -> bool -> rvalue -> sstate -> Pr
     zblock (enter s []) (if first then RNil else RNone) cond (BExit v) s1 -> zwhile cond body s first v (pop_scope s1)
 | ZWhileExitBody cond body s (first:bool) s1 v s2 :
     zblock (enter s []) (if first then RNil else RNone) cond (BNorm (RBool true)) s1 ->
-    zblock (set_top_vars s1 []) RNone body (BExit v) s2 -> zwhile cond body s first v (pop_scope s2).
+    zblock (set_top_vars s1 []) RNone body (BExit v) s2 -> zwhile cond body s first v (pop_scope s2)
+(* a block that is left by a throw: the statements in front of the throwing one run normally; the throwing statement is `throw v`,
+   `if c throw v`, or a scope construct standing as a statement - call, if-then(-else), a try-catch whose handler throws - whose
+   block is left by a throw; the state is the one at the throw, with the scopes between the throw and this block closed *)
+with zthrow : sstate -> rvalue -> list stmt -> rvalue -> sstate -> Prop :=
+| ZTCons s reg st reg1 s1 st2 rest x s' : zstmt s reg st reg1 s1 -> zthrow s1 RNone (st2 :: rest) x s' -> zthrow s reg (st :: st2 :: rest) x s'
+| ZTThrow s reg n e v s1 rest : lower n = "throw" -> (forall k, e <> ENum k) -> zev s e v s1 -> nonnil v ->
+    zthrow s reg (SExpr (EUnary n e) :: rest) v s1
+| ZTThrowIf s reg n a b v s1 s2 rest : lower n = "throw" -> zev s a (RIf true) s1 -> zev s1 b v s2 -> nonnil v ->
+    zthrow s reg (SExpr (EBinary n a b) :: rest) v s2
+| ZTCallU s reg n a b s1 x s2 rest : lower n = "call" -> (forall k, a <> ENum k) -> zev s a (RCode b) s1 ->
+    zthrow (enter s1 [("_this", this_of s1)]) RNil b x s2 -> zthrow s reg (SExpr (EUnary n a) :: rest) x (pop_scope s2)
+| ZTThen s reg n a b blk s1 s2 x s3 rest : lower n = "then" -> zev s a (RIf true) s1 -> zev s1 b (RCode blk) s2 ->
+    zthrow (enter s2 []) RNil blk x s3 -> zthrow s reg (SExpr (EBinary n a b) :: rest) x (pop_scope s3)
+| ZTThenElse s reg n a b c x0 y0 s1 s2 x s3 rest : lower n = "then" -> zev s a (RIf c) s1 -> zev s1 b (RArr [RCode x0; RCode y0]) s2 ->
+    zthrow (enter s2 []) RNil (if c then x0 else y0) x s3 -> zthrow s reg (SExpr (EBinary n a b) :: rest) x (pop_scope s3)
+| ZTHandler s reg n a b body h s1 s2 x s3 y s4 rest : lower n = "catch" -> zev s a (RTry body) s1 -> zev s1 b (RCode h) s2 ->
+    zthrow (enter s2 []) RNil body x s3 -> zthrow (set_top_vars s3 [("_exception", x)]) RNil h y s4 ->
+    zthrow s reg (SExpr (EBinary n a b) :: rest) y (pop_scope s4).
 
 Scheme zev_i := Induction for zev Sort Prop
   with zevs_i := Induction for zevs Sort Prop
@@ -213,8 +239,9 @@ Scheme zev_i := Induction for zev Sort Prop
   with zblock_i := Induction for zblock Sort Prop
   with ziter_i := Induction for ziter Sort Prop
   with zfor_i := Induction for zfor Sort Prop
-  with zwhile_i := Induction for zwhile Sort Prop.
-Combined Scheme z_ind from zev_i, zevs_i, zstmt_i, zblock_i, ziter_i, zfor_i, zwhile_i.
+  with zwhile_i := Induction for zwhile Sort Prop
+  with zthrow_i := Induction for zthrow Sort Prop.
+Combined Scheme z_ind from zev_i, zevs_i, zstmt_i, zblock_i, ziter_i, zfor_i, zwhile_i, zthrow_i.
 
 Lemma zblock_val s reg b out s' : zblock s reg b out s' -> val_of out <> RNone.
 Proof. induction 1; cbn [val_of]; try assumption; match goal with |- res_of ?r <> _ => destruct r; discriminate end. Qed.
@@ -371,8 +398,8 @@ Proof.
         split; [apply vars_match_mvars|split; [|reflexivity]]. cbn. unfold cur_ns. rewrite EF. inversion F as [|sc f0 scs fs (V & NS & BB) F' E1 E2]; subst.
         unfold cur_ns_of. rewrite <- E1. exact NS.
       + split; [cbn; lia|exact D].
-    - split; [reflexivity|]. exists [VNil]. split; [reflexivity|]. split; [reflexivity|]. split; [discriminate|left; reflexivity]. }
-  exact (SE r1 c1 nf fc rest (c_values c0) [] A (or_intror eq_refl) eq_refl eq_refl eq_refl B).
+    - split; [reflexivity|]. exists [VNil]. split; [reflexivity|]. split; [reflexivity|]. split; [discriminate|nil_case]. }
+  exact (SE r1 c1 nf fc rest (c_values c0) [] A (fresh_one c1 (c_values c0) eq_refl) eq_refl eq_refl eq_refl B).
 Qed.
 
 Lemma compile_block_cons2 st st2 b : compile_block (st :: st2 :: b) = compile_stmt st ++ IEnd :: compile_block (st2 :: b).
@@ -964,8 +991,149 @@ Proof.
       + destruct M as [F N]. split; [|exact N]. cbn. constructor; [|exact F].
         split; [apply vars_match_mvars|split; reflexivity].
       + split; [cbn; lia|exact D].
-    - split; [reflexivity|]. exists [VNil]. split; [reflexivity|]. split; [reflexivity|]. split; [discriminate|left; reflexivity]. }
-  exact (SE r1 c1 nf fc rest (c_values c0) [] A (or_intror eq_refl) eq_refl eq_refl eq_refl B).
+    - split; [reflexivity|]. exists [VNil]. split; [reflexivity|]. split; [reflexivity|]. split; [discriminate|nil_case]. }
+  exact (SE r1 c1 nf fc rest (c_values c0) [] A (fresh_one c1 (c_values c0) eq_refl) eq_refl eq_refl eq_refl B).
+Qed.
+
+(* ---------------------------------------------------------------- throw: where the machine stands when a handler has taken over *)
+Definition drop_scopes (k:nat) (s:sstate) : sstate := with_scopes s (skipn k (st_scopes s)).
+Lemma drop_scopes_S k s : drop_scopes (S k) s = drop_scopes k (pop_scope s).
+Proof. unfold drop_scopes, pop_scope, with_scopes. cbn [st_scopes st_nss st_trace]. destruct (st_scopes s); [rewrite !skipn_nil; reflexivity|reflexivity]. Qed.
+
+(* the handler's frame hf is the running one, the frames above it are gone, the reference state is s (the handler's scope on
+   top, holding _exception only); on the operand stack lie the nil the throw left and under it, down to the handler frame's
+   base, only nils *)
+Definition Caught (s:sstate) (r':rt) (c':context) (hf:frame) (rest':list frame) (below_t:list value) : Prop :=
+  Good r' c' /\ quirks r' = ([], 0) /\ c_frames c' = hf :: rest' /\ Match s r' (hf :: rest') /\
+  exists jn, c_values c' = VNil :: jn ++ below_t /\ under jn.
+
+(* a block in frame f that is left by a throw: the innermost frame with a handler is ft, [inner] are the frames above it
+   (f first; empty when f is that frame itself), what lies between f's part of the stack and ft's base are nils *)
+Definition ThrowRuns (s:sstate) (reg:rvalue) (code:list instr) (x:rvalue) (s':sstate) : Prop :=
+  forall r c f restf below pre inner ft rest h jn below_t,
+    AtM s reg r c f restf below -> Fresh c below ->
+    f_code f = pre ++ code -> f_pos f = length pre ->
+    f :: restf = inner ++ ft :: rest -> Forall (fun m => f_err m = None) inner -> f_err ft = Some (ECatch h) ->
+    below = jn ++ below_t -> under jn -> length below_t = f_base ft ->
+    exists r' c' rest', Steps r r' /\ Forall2 kept rest rest' /\
+      Caught (set_top_vars (drop_scopes (length inner) s') [("_exception", x)]) r' c' (handler_frame ft h (cv x)) rest' below_t.
+
+Lemma moved_err f f' : moved f f' -> f_err f' = f_err f. Proof. intros H. rewrite <- H. reflexivity. Qed.
+Lemma kept_err f f' : kept f f' -> f_err f' = f_err f. Proof. intros H. rewrite <- H. reflexivity. Qed.
+Lemma kept_all_err l l' : Forall2 kept l l' -> Forall (fun m => f_err m = None) l -> Forall (fun m => f_err m = None) l'.
+Proof. induction 1 as [|a b l l' K _ IH]; intros HF; [constructor|]. inversion HF; subst. constructor; [rewrite (kept_err _ _ K); assumption|apply IH; assumption]. Qed.
+
+(* the chain of frames down to the handler's, after the running frame has moved on and the others have kept their shape *)
+Lemma chain_kept f restf inner ft rest f1 rest1 h x :
+  f :: restf = inner ++ ft :: rest -> Forall (fun m => f_err m = None) inner -> f_err ft = Some (ECatch h) ->
+  moved f f1 -> Forall2 kept restf rest1 ->
+  exists inner1 ft1 rest1', f1 :: rest1 = inner1 ++ ft1 :: rest1' /\ Forall (fun m => f_err m = None) inner1 /\
+    f_err ft1 = Some (ECatch h) /\ handler_frame ft1 h x = handler_frame ft h x /\ length inner1 = length inner /\
+    Forall2 kept rest rest1' /\ f_base ft1 = f_base ft.
+Proof.
+  intros CH HF HE MV K. destruct inner as [|m inner0]; cbn [app] in CH.
+  - inversion CH; subst. exists [], f1, rest1. split; [reflexivity|]. split; [constructor|]. split; [rewrite (moved_err _ _ MV); exact HE|].
+    split; [apply handler_frame_moved; exact MV|]. split; [reflexivity|]. split; [exact K|apply (moved_base _ _ MV)].
+  - inversion CH; subst. inversion HF as [|? ? HM HF0]; subst.
+    destruct (Forall2_app_inv_l _ _ K) as (i1 & l2 & K1 & K2 & ->).
+    inversion K2 as [|? ft1 ? r1' Kt Kr]; subst.
+    exists (f1 :: i1), ft1, r1'. split; [reflexivity|]. split; [constructor; [rewrite (moved_err _ _ MV); exact HM|exact (kept_all_err _ _ K1 HF0)]|].
+    split; [rewrite (kept_err _ _ Kt); exact HE|]. split; [apply handler_frame_kept; exact Kt|].
+    split; [cbn; rewrite (forall2_length _ _ _ K1); reflexivity|]. split; [exact Kr|apply (kept_base _ _ Kt)].
+Qed.
+
+Lemma match_after_throw s r inner1 ft1 rest1 h x :
+  Match s r (inner1 ++ ft1 :: rest1) ->
+  Match (set_top_vars (drop_scopes (length inner1) s) [("_exception", x)]) r (handler_frame ft1 h (cv x) :: rest1).
+Proof.
+  intros [F N]. destruct (Forall2_app_inv_r _ _ F) as (l1 & l2 & F1 & F2 & E).
+  inversion F2 as [|sct ? l2' ? (V & NS & BB) F2' E1 E2]; subst.
+  assert (L : length inner1 = length l1) by (apply (forall2_length _ _ _ F1)).
+  unfold drop_scopes, set_top_vars, with_scopes. cbn [st_scopes st_nss st_trace]. rewrite E, L, skipn_app_here.
+  split; [|exact N]. cbn [st_scopes]. constructor; [|exact F2'].
+  split; [apply (vars_match_mvars [("_exception", x)])|split; [exact NS|exact BB]].
+Qed.
+
+Lemma compile_block_unary n a rest : (forall k, a <> ENum k) ->
+  compile_block (SExpr (EUnary n a) :: rest) = compile_expr a ++ [IUnary (lower n)] ++ compile_block_from false rest.
+Proof. intros NL. unfold compile_block. cbn [compile_block_from compile_stmt app]. rewrite (compile_unary_nonlit n a NL), <- app_assoc. reflexivity. Qed.
+
+(* a new scope on top of the running frame: where its block starts (er: the error handler the frame carries) *)
+Lemma enter_at s vars code er r1 c0 fc rest :
+  let newf := mk_frame (cur_ns c0) code None er (mvars vars) in
+  let c1 := push_value (push_frame c0 newf) VNil in
+  Good r1 c1 -> quirks r1 = ([], 0) -> c_frames c0 = fc :: rest -> Match s r1 (fc :: rest) ->
+  AtM (enter s vars) RNil r1 c1 (set_base newf (length (c_values c0))) (fc :: rest) (c_values c0).
+Proof.
+  intros newf c1 G D EF M. split.
+  - split; [exact G|]. split; [cbn; rewrite EF; reflexivity|]. split.
+    + destruct M as [F N]. split; [|exact N]. cbn. constructor; [|exact F].
+      split; [apply vars_match_mvars|split; [|reflexivity]]. cbn. unfold cur_ns. rewrite EF. inversion F as [|sc f0 scs fs (V & NS & BB) F' E1 E2]; subst.
+      unfold cur_ns_of. rewrite <- E1. exact NS.
+    + split; [cbn; lia|exact D].
+  - split; [reflexivity|]. exists [VNil]. split; [reflexivity|]. split; [reflexivity|]. split; [discriminate|nil_case].
+Qed.
+
+(* a throw out of the block of a plain scope (call, then, else) that stands as a statement of the running frame fc *)
+Lemma throw_in_scope s vars b x s3 r1 c0 fc restf inner ft rest h jn below_t :
+  ThrowRuns (enter s vars) RNil (compile_block b) x s3 ->
+  let newf := mk_frame (cur_ns c0) (compile_block b) None None (mvars vars) in
+  let c1 := push_value (push_frame c0 newf) VNil in
+  Good r1 c1 -> quirks r1 = ([], 0) -> c_frames c0 = fc :: restf -> Match s r1 (fc :: restf) ->
+  fc :: restf = inner ++ ft :: rest -> Forall (fun m => f_err m = None) inner -> f_err ft = Some (ECatch h) ->
+  c_values c0 = jn ++ below_t -> under jn -> length below_t = f_base ft ->
+  exists r' c' rest', Steps r1 r' /\ Forall2 kept rest rest' /\
+    Caught (set_top_vars (drop_scopes (length inner) (pop_scope s3)) [("_exception", x)]) r' c' (handler_frame ft h (cv x)) rest' below_t.
+Proof.
+  intros TR newf c1 G D EF M CH HF HE EV UJ LBT.
+  pose proof (enter_at s vars (compile_block b) None r1 c0 fc restf G D EF M) as A.
+  destruct (TR r1 c1 (set_base newf (length (c_values c0))) (fc :: restf) (c_values c0) [] (set_base newf (length (c_values c0)) :: inner) ft rest h jn below_t
+              A (fresh_one c1 (c_values c0) eq_refl) eq_refl eq_refl) as (r' & c' & rest' & S & K & CA).
+  { cbn [app]. rewrite CH. reflexivity. } { constructor; [reflexivity|exact HF]. } { exact HE. } { exact EV. } { exact UJ. } { exact LBT. }
+  exists r', c', rest'. split; [exact S|]. split; [exact K|]. cbn [length] in CA. rewrite drop_scopes_S in CA. exact CA.
+Qed.
+
+(* a throw out of the block of try {..} catch {..}: the try frame itself takes it *)
+Lemma throw_in_try s b x s3 r1 c0 fc restf h :
+  ThrowRuns (enter s []) RNil (compile_block b) x s3 ->
+  let newf := mk_frame (cur_ns c0) (compile_block b) None (Some (ECatch h)) (mvars []) in
+  let c1 := push_value (push_frame c0 newf) VNil in
+  Good r1 c1 -> quirks r1 = ([], 0) -> c_frames c0 = fc :: restf -> Match s r1 (fc :: restf) ->
+  exists r' c' rest', Steps r1 r' /\ Forall2 kept (fc :: restf) rest' /\
+    Caught (set_top_vars s3 [("_exception", x)]) r' c' (handler_frame (set_base newf (length (c_values c0))) h (cv x)) rest' (c_values c0).
+Proof.
+  intros TR newf c1 G D EF M.
+  pose proof (enter_at s [] (compile_block b) (Some (ECatch h)) r1 c0 fc restf G D EF M) as A.
+  destruct (TR r1 c1 (set_base newf (length (c_values c0))) (fc :: restf) (c_values c0) [] [] (set_base newf (length (c_values c0))) (fc :: restf) h [] (c_values c0)
+              A (fresh_one c1 (c_values c0) eq_refl) eq_refl eq_refl eq_refl) as (r' & c' & rest' & S & K & CA).
+  { constructor. } { reflexivity. } { reflexivity. } { constructor. } { reflexivity. }
+  exists r', c', rest'. split; [exact S|]. split; [exact K|].
+  cbn [length] in CA. unfold drop_scopes in CA. cbn [skipn] in CA.
+  replace (with_scopes s3 (st_scopes s3)) with s3 in CA by (destruct s3; reflexivity). exact CA.
+Qed.
+
+(* the handler has taken over: where its block starts *)
+Lemma caught_at s r c hf rest below_t : Caught s r c hf rest below_t -> length below_t = f_base hf ->
+  AtM s RNil r c hf rest below_t /\ Fresh c below_t.
+Proof.
+  intros (G & D & EF & M & jn & EV & UJ) LB. split.
+  - split; [split; [exact G|split; [exact EF|split; [exact M|split; [rewrite EV; cbn; rewrite app_length; lia|exact D]]]]|].
+    split; [exact LB|]. exists (VNil :: jn). split; [exact EV|]. split; [reflexivity|]. split; [discriminate|exact UJ].
+  - exists (VNil :: jn). split; [exact EV|]. constructor; [reflexivity|exact UJ].
+Qed.
+
+(* try {..} catch {..} whose block is not left by a throw: a scope like any other, its frame carries the handler *)
+Lemma scope_run_err s b out s3 r1 c0 fc rest er :
+  ScopeEnds (enter s []) RNil (compile_block b) out s3 ->
+  let newf := mk_frame (cur_ns c0) (compile_block b) None er (mvars []) in
+  let c1 := push_value (push_frame c0 newf) VNil in
+  Good r1 c1 -> quirks r1 = ([], 0) -> c_frames c0 = fc :: rest -> Match s r1 (fc :: rest) -> f_base fc <= length (c_values c0) ->
+  exists r' c' fc' rest', Steps r1 r' /\ Mach (pop_scope s3) r' c' fc' rest' /\ c_values c' = cv (val_of out) :: c_values c0 /\
+    kept fc fc' /\ Forall2 kept rest rest'.
+Proof.
+  intros SE newf c1 G D EF M B.
+  pose proof (enter_at s [] (compile_block b) er r1 c0 fc rest G D EF M) as A.
+  exact (SE r1 c1 (set_base newf (length (c_values c0))) fc rest (c_values c0) [] A (fresh_one c1 (c_values c0) eq_refl) eq_refl eq_refl eq_refl B).
 Qed.
 
 Theorem vm_runs_z :
@@ -979,7 +1147,8 @@ Theorem vm_runs_z :
   (forall s reg b out s', zblock s reg b out s' -> BodyEnds s reg (compile_block b) out s') /\
   (forall k s arr i body acc acc' s', ziter k s arr i body acc acc' s' -> IterRuns k s arr i body acc acc' s') /\
   (forall var to st s x first body acc s', zfor var to st s x first body acc s' -> ForRuns var to st s x first body acc s') /\
-  (forall cond body s first v s', zwhile cond body s first v s' -> WhileRuns cond body s first v s').
+  (forall cond body s first v s', zwhile cond body s first v s' -> WhileRuns cond body s first v s') /\
+  (forall s reg b x s', zthrow s reg b x s' -> ThrowRuns s reg (compile_block b) x s').
 Proof.
   apply z_ind.
   - (* pure *) intros s e v HE r c f rest pre post (G & EF & M & B & D) EC EP.
@@ -1256,8 +1425,8 @@ Proof.
           split; [apply kvars0_match|split; [|reflexivity]].
           cbn. destruct FM as (_ & NS & _). unfold cur_ns_of. rewrite <- E1. exact NS.
         + split; [cbn; lia|rewrite quirks_upd_cur; exact D2].
-      - split; [reflexivity|]. exists [VNil]. split; [reflexivity|]. split; [reflexivity|]. split; [discriminate|left; reflexivity]. }
-    { right. reflexivity. }
+      - split; [reflexivity|]. exists [VNil]. split; [reflexivity|]. split; [reflexivity|]. split; [discriminate|nil_case]. }
+    { apply fresh_one; reflexivity. }
     { reflexivity. } { reflexivity. } { reflexivity. } { apply kb_init. } { reflexivity. } { reflexivity. } { exact LF. } { reflexivity. }
     { cbn. rewrite (moved_base _ _ MV2), (moved_base _ _ MV1); exact B. }
     eexists _, _, fc4, rest4. split; [eapply steps_trans; [exact S1|eapply steps_trans; [exact S2|eapply steps_trans; [exact S3|exact S4]]]|].
@@ -1291,8 +1460,8 @@ Proof.
           split; [apply kvars0_match|split; [|reflexivity]].
           cbn. destruct FM as (_ & NS & _). unfold cur_ns_of. rewrite <- E1. exact NS.
         + split; [cbn; lia|rewrite quirks_upd_cur; exact D2].
-      - split; [reflexivity|]. exists [VNil]. split; [reflexivity|]. split; [reflexivity|]. split; [discriminate|left; reflexivity]. }
-    { right. reflexivity. }
+      - split; [reflexivity|]. exists [VNil]. split; [reflexivity|]. split; [reflexivity|]. split; [discriminate|nil_case]. }
+    { apply fresh_one; reflexivity. }
     { reflexivity. } { reflexivity. } { reflexivity. } { apply kb_init. } { reflexivity. } { reflexivity. } { exact LF. } { reflexivity. }
     { cbn. rewrite (moved_base _ _ MV2), (moved_base _ _ MV1); exact B. }
     eexists _, _, fc4, rest4. split; [eapply steps_trans; [exact S1|eapply steps_trans; [exact S2|eapply steps_trans; [exact S3|exact S4]]]|].
@@ -1412,8 +1581,8 @@ Proof.
           split; [apply (vars_match_mvars [(lower var, RNum fr)])|split; [|reflexivity]].
           cbn. destruct FM as (_ & NS & _). unfold cur_ns_of. rewrite <- E1. exact NS.
         + split; [cbn; lia|rewrite quirks_upd_cur; exact D2].
-      - split; [reflexivity|]. exists [VNil]. split; [reflexivity|]. split; [reflexivity|]. split; [discriminate|left; reflexivity]. }
-    { right. reflexivity. }
+      - split; [reflexivity|]. exists [VNil]. split; [reflexivity|]. split; [reflexivity|]. split; [discriminate|nil_case]. }
+    { apply fresh_one; reflexivity. }
     { reflexivity. } { reflexivity. } { reflexivity. } { reflexivity. } { exact LF. } { reflexivity. }
     { cbn. rewrite (moved_base _ _ MV2), (moved_base _ _ MV1); exact B. }
     eexists _, _, fc4, rest4. split; [eapply steps_trans; [exact S1|eapply steps_trans; [exact S2|eapply steps_trans; [exact S3|exact S4]]]|].
@@ -1459,8 +1628,8 @@ Proof.
           split; [intros k; reflexivity|split; [|reflexivity]].
           cbn. destruct FM as (_ & NS & _). unfold cur_ns_of. rewrite <- E1. exact NS.
         + split; [cbn; lia|rewrite quirks_upd_cur; exact D2].
-      - split; [reflexivity|]. exists [VNil]. split; [reflexivity|]. split; [reflexivity|]. split; [discriminate|left; reflexivity]. }
-    { right. reflexivity. }
+      - split; [reflexivity|]. exists [VNil]. split; [reflexivity|]. split; [reflexivity|]. split; [discriminate|nil_case]. }
+    { apply fresh_one; reflexivity. }
     { reflexivity. } { reflexivity. } { reflexivity. } { reflexivity. } { exact LFc. } { exact LFb. } { reflexivity. }
     { cbn. rewrite (moved_base _ _ MV2), (moved_base _ _ MV1); exact B. }
     eexists _, _, fc4, rest4. split; [eapply steps_trans; [exact S1|eapply steps_trans; [exact S2|eapply steps_trans; [exact S3|exact S4]]]|].
@@ -1593,6 +1762,66 @@ Proof.
       rewrite EV2, (kept_base _ _ K2). cbn. rewrite (moved_base _ _ MV1). lia.
     + split; [change (c_values (push_value (declare_top_var c0 x) VNil)) with (VNil :: c_values (declare_top_var c0 x)); rewrite EV2; reflexivity|]. split; [eapply moved_trans; [exact MV1|eapply moved_trans; [apply (moved_set_pos f1 (S (f_pos f1)))|apply kept_moved; exact K2]]|].
       split; [rewrite (kept_pos _ _ K2); cbn; rewrite P1; lia|exact K1].
+  - (* try {..} *) intros s n a b s1 HN NL HA IHa r c f rest pre post MA EC EP.
+    rewrite (compile_unary_nonlit n a NL) in *. rewrite app_length. cbn [length]. rewrite <- app_assoc in EC.
+    post_intro (IHa r c f rest pre ([IUnary (lower n)] ++ post) MA EC EP) r1 c1 f1 rest1 S1 M1 EV1 MV1 P1 K1.
+    destruct (after_operands_code f f1 pre _ _ MV1 EC EP P1) as [EC1 EP1].
+    destruct M1 as (G1 & EF1 & MM1 & B1 & D1). destruct MA as (_ & _ & _ & B & _).
+    set (c0 := set_values (set_frames c1 (set_pos f1 (S (f_pos f1)) :: rest1)) (c_values c)).
+    destruct (unary_run r1 c1 f1 rest1 _ _ (lower n) (cv (RCode b)) (c_values c) c0 (cv (RTry b)) G1 EF1 EC1 EP1 EV1) as [S2 G2].
+    { rewrite (moved_base _ _ MV1); exact B. } { discriminate. } { rewrite lower_idem, HN. reflexivity. }
+    { destruct G1 as (_ & _ & _ & _ & _ & _ & SU); exact SU. }
+    eexists _, _, _, rest1. split; [eapply steps_trans; [exact S1|exact S2]|]. split.
+    + split; [exact G2|]. split; [reflexivity|]. split; [apply match_upd, match_set_pos; exact MM1|].
+      split; [cbn; rewrite (moved_base _ _ MV1); lia|rewrite quirks_upd_cur; exact D1].
+    + split; [reflexivity|]. split; [eapply moved_trans; [exact MV1|apply moved_set_pos]|]. split; [cbn; rewrite P1; lia|exact K1].
+  - (* try {..} catch {..}, no throw *) intros s n a b body h s1 s2 out s3 HN HA IHa HB IHb HX IHx r c f rest pre post MA EC EP.
+    rewrite compile_binary in *. rewrite !app_length. cbn [length]. rewrite <- !app_assoc in EC.
+    post_intro (IHa r c f rest pre (compile_expr b ++ [IBinary (lower n)] ++ post) MA EC EP) r1 c1 f1 rest1 S1 M1 EV1 MV1 P1 K1.
+    destruct (after_operands_code f f1 pre _ _ MV1 EC EP P1) as [EC1 EP1].
+    post_intro (IHb r1 c1 f1 rest1 (pre ++ compile_expr a) ([IBinary (lower n)] ++ post) M1 EC1 EP1) r2 c2 f2 rest2 S2 M2 EV2 MV2 P2 K2.
+    destruct (after_operands_code f1 f2 _ _ _ MV2 EC1 EP1 P2) as [EC2 EP2].
+    destruct M2 as (G2 & EF2 & MM2 & B2 & D2). destruct MA as (_ & _ & _ & B & _).
+    rewrite EV1 in EV2.
+    set (c0 := set_values (set_frames c2 (set_pos f2 (S (f_pos f2)) :: rest2)) (c_values c)).
+    destruct (binary_run r2 c2 f2 rest2 _ _ (lower n) (cv (RTry body)) (cv (RCode h)) (c_values c)
+                (push_frame c0 (mk_frame (cur_ns c0) (compile_block body) None (Some (ECatch (compile_block h))) (mvars []))) VNil G2 EF2 EC2 EP2 EV2) as [S3 G3].
+    { rewrite (moved_base _ _ MV2), (moved_base _ _ MV1); exact B. } { discriminate. } { discriminate. }
+    { rewrite lower_idem, HN. reflexivity. }
+    { destruct G2 as (_ & _ & _ & _ & _ & _ & SU); exact SU. }
+    destruct (scope_run_err s2 body out s3 _ c0 (set_pos f2 (S (f_pos f2))) rest2 (Some (ECatch (compile_block h))) (scope_ends_of_body _ _ _ _ _ IHx) G3) as (r4 & c4 & fc4 & rest4 & S4 & M4 & EV4 & K4 & KR4).
+    { rewrite quirks_upd_cur; exact D2. } { reflexivity. } { apply match_upd, match_set_pos; exact MM2. }
+    { cbn. rewrite (moved_base _ _ MV2), (moved_base _ _ MV1); exact B. }
+    eexists _, _, fc4, rest4. split; [eapply steps_trans; [exact S1|eapply steps_trans; [exact S2|eapply steps_trans; [exact S3|exact S4]]]|].
+    split; [exact M4|]. split; [exact EV4|].
+    split; [eapply moved_trans; [exact MV1|eapply moved_trans; [exact MV2|eapply moved_trans; [apply (moved_set_pos f2 (S (f_pos f2)))|apply kept_moved; exact K4]]]|].
+    split; [rewrite (kept_pos _ _ K4); cbn; rewrite P2, P1; lia|eapply kept_all_trans; [exact K1|eapply kept_all_trans; eassumption]].
+  - (* try {.. throw ..} catch {..} *) intros s n a b body h s1 s2 x s3 out s4 HN HA IHa HB IHb HX IHx HH IHh r c f rest pre post MA EC EP.
+    rewrite compile_binary in *. rewrite !app_length. cbn [length]. rewrite <- !app_assoc in EC.
+    post_intro (IHa r c f rest pre (compile_expr b ++ [IBinary (lower n)] ++ post) MA EC EP) r1 c1 f1 rest1 S1 M1 EV1 MV1 P1 K1.
+    destruct (after_operands_code f f1 pre _ _ MV1 EC EP P1) as [EC1 EP1].
+    post_intro (IHb r1 c1 f1 rest1 (pre ++ compile_expr a) ([IBinary (lower n)] ++ post) M1 EC1 EP1) r2 c2 f2 rest2 S2 M2 EV2 MV2 P2 K2.
+    destruct (after_operands_code f1 f2 _ _ _ MV2 EC1 EP1 P2) as [EC2 EP2].
+    destruct M2 as (G2 & EF2 & MM2 & B2 & D2). destruct MA as (_ & _ & _ & B & _).
+    rewrite EV1 in EV2.
+    set (c0 := set_values (set_frames c2 (set_pos f2 (S (f_pos f2)) :: rest2)) (c_values c)).
+    set (newf := mk_frame (cur_ns c0) (compile_block body) None (Some (ECatch (compile_block h))) (mvars [])).
+    destruct (binary_run r2 c2 f2 rest2 _ _ (lower n) (cv (RTry body)) (cv (RCode h)) (c_values c)
+                (push_frame c0 newf) VNil G2 EF2 EC2 EP2 EV2) as [S3 G3].
+    { rewrite (moved_base _ _ MV2), (moved_base _ _ MV1); exact B. } { discriminate. } { discriminate. }
+    { rewrite lower_idem, HN. reflexivity. }
+    { destruct G2 as (_ & _ & _ & _ & _ & _ & SU); exact SU. }
+    destruct (throw_in_try s2 body x s3 _ c0 (set_pos f2 (S (f_pos f2))) rest2 (compile_block h) IHx G3) as (r4 & c4 & rest4 & S4 & K4 & CA).
+    { rewrite quirks_upd_cur; exact D2. } { reflexivity. } { apply match_upd, match_set_pos; exact MM2. }
+    inversion K4 as [|fa fc4 ra rest4' Ka Kb Ea Eb]; subst.
+    fold newf in CA. set (hf := handler_frame (set_base newf (length (c_values c0))) (compile_block h) (cv x)) in *.
+    destruct (caught_at _ _ _ _ _ _ CA eq_refl) as [A5 FR5].
+    destruct (scope_ends_of_body _ _ _ _ _ IHh r4 c4 hf fc4 rest4' (c_values c0) [] A5 FR5 eq_refl eq_refl eq_refl) as (r5 & c5 & fc5 & rest5 & S5 & M5 & EV5 & K5 & KR5).
+    { rewrite (kept_base _ _ Ka). cbn. rewrite (moved_base _ _ MV2), (moved_base _ _ MV1); exact B. }
+    eexists _, _, fc5, rest5. split; [eapply steps_trans; [exact S1|eapply steps_trans; [exact S2|eapply steps_trans; [exact S3|eapply steps_trans; [exact S4|exact S5]]]]|].
+    split; [exact M5|]. split; [exact EV5|].
+    split; [eapply moved_trans; [exact MV1|eapply moved_trans; [exact MV2|eapply moved_trans; [apply (moved_set_pos f2 (S (f_pos f2)))|apply kept_moved; eapply kept_trans; eassumption]]]|].
+    split; [rewrite (kept_pos _ _ K5), (kept_pos _ _ Ka); cbn; rewrite P2, P1; lia|eapply kept_all_trans; [exact K1|eapply kept_all_trans; [exact K2|eapply kept_all_trans; eassumption]]].
   - (* no elements *) intros s r c f rest pre post MA EC EP. split; [|reflexivity].
     exists r, c, f, rest. split; [apply StepsRefl|]. split; [exact MA|]. split; [reflexivity|]. split; [apply moved_refl|].
     split; [cbn; lia|apply kept_all_refl].
@@ -1689,8 +1918,8 @@ Proof.
           constructor; [|constructor; [exact FM|exact F']].
           split; [intros k; reflexivity|split; [|reflexivity]]. cbn. destruct FM as (_ & NS & _). unfold cur_ns_of. rewrite <- E1. exact NS.
         + split; [cbn; lia|rewrite quirks_upd_cur; exact D2].
-      - split; [reflexivity|]. exists [VNil]. split; [reflexivity|]. split; [reflexivity|]. split; [discriminate|left; reflexivity]. }
-    destruct (scope_ends_of_body _ _ _ _ _ IHb _ _ nf fdie (fc2 :: rest2') (c_values c) [] A3 (or_intror eq_refl) eq_refl eq_refl eq_refl) as (r4 & c4 & fd4 & rest4 & S4 & M4 & EV4 & K4 & KR4).
+      - split; [reflexivity|]. exists [VNil]. split; [reflexivity|]. split; [reflexivity|]. split; [discriminate|nil_case]. }
+    destruct (scope_ends_of_body _ _ _ _ _ IHb _ _ nf fdie (fc2 :: rest2') (c_values c) [] A3 (fresh_one (push_value cX VNil) (c_values c) eq_refl) eq_refl eq_refl eq_refl) as (r4 & c4 & fd4 & rest4 & S4 & M4 & EV4 & K4 & KR4).
     { cbn. rewrite (moved_base _ _ MV2), (moved_base _ _ MV1); exact B. }
     inversion KR4 as [|fb fc4 rb rest4' Kc Kd Ec Ed]; subst.
     destruct M4 as (G4 & EF4 & MM4 & B4 & D4).
@@ -1752,7 +1981,7 @@ Proof.
               unfold cur_ns_of, pop_scope. cbn. rewrite <- E1. cbn. rewrite <- E3. exact NS2.
           + split; [cbn; rewrite LB1; lia|rewrite quirks_upd_cur; exact D1].
         - split; [cbn; exact LB1|]. exists []. split; [reflexivity|reflexivity]. }
-      { left. reflexivity. }
+      { nil_case. }
       { cbn. rewrite (moved_code _ _ MV1). exact EC. } { reflexivity. } { reflexivity. } { exact KB'. } { cbn. exact XD. }
       { exact SK1. } { exists i0, code'. split; assumption. }
       { cbn. rewrite (moved_ns _ _ MV1), ENS, (kept_ns _ _ Ka). reflexivity. }
@@ -1823,7 +2052,7 @@ Proof.
             unfold cur_ns_of, pop_scope. cbn. rewrite <- E1. cbn. rewrite <- E3. exact NS2.
         + split; [cbn; rewrite LB1; lia|rewrite quirks_upd_cur; exact D1].
       - split; [cbn; exact LB1|]. exists []. split; [reflexivity|reflexivity]. }
-    { left. reflexivity. }
+    { nil_case. }
     { cbn. rewrite (moved_code _ _ MV1). exact EC. } { reflexivity. } { reflexivity. } { cbn. exact XD. }
     { exists i0, code'. split; assumption. }
     { cbn. rewrite (moved_ns _ _ MV1), ENS, (kept_ns _ _ Ka). reflexivity. }
@@ -1888,7 +2117,7 @@ Proof.
     { split; [exact G2|]. split; [reflexivity|]. split.
       - apply match_upd. split; [|exact N1]. cbn. rewrite <- E1. cbn. exact F1'.
       - split; [cbn; rewrite (kept_base _ _ Ka); lia|rewrite quirks_upd_cur; exact D1]. }
-    split; [cbn; destruct UT as [-> | ->]; reflexivity|split; assumption].
+    split; [cbn; rewrite (under_top t UT); reflexivity|split; assumption].
   - (* while: a round, then the rest *) intros cond body s first s1 reg s2 v s' HC IHc HB IHb HW IHw.
     intros r c f fc frest below loops A FR EC EP EX ED LFc LFb ENS HBf.
     specialize (IHc r c f fc frest below [] A FR EC EP HBf). cbn in IHc.
@@ -1915,7 +2144,7 @@ Proof.
           destruct FM1 as (_ & NS1 & BB1). split; [intros k; reflexivity|split; [cbn; exact NS1|cbn; exact BB1]].
         + split; [cbn; rewrite LB1; lia|rewrite quirks_upd_cur; exact D1].
       - split; [cbn; exact LB1|]. exists []. split; [reflexivity|reflexivity]. }
-    { left. reflexivity. }
+    { nil_case. }
     { cbn. rewrite LCb. reflexivity. } { reflexivity. } { rewrite (kept_base _ _ Ka). exact HBf. }
     inversion K2 as [|fb fc2 rb frest2 Kc Kd Ec Ed]; subst.
     destruct A2 as ((G2 & EF2 & (F2 & N2) & B2 & D2) & LB2 & top2 & EV2 & RR2).
@@ -1939,7 +2168,7 @@ Proof.
           unfold cur_ns_of, pop_scope. cbn. rewrite <- E3. cbn. rewrite <- E5. exact NS3.
         + split; [cbn; rewrite LB2; lia|rewrite quirks_upd_cur; exact D2].
       - split; [cbn; exact LB2|]. exists []. split; [reflexivity|reflexivity]. }
-    { left. reflexivity. }
+    { nil_case. }
     { cbn. rewrite LCc. reflexivity. } { reflexivity. } { cbn. rewrite LCc, LCb. reflexivity. } { cbn. exact XD2. }
     { exact LFc. } { exact LFb. }
     { cbn. rewrite (moved_ns _ _ MV2). cbn. rewrite (moved_ns _ _ MV1), ENS, (kept_ns _ _ Kc), (kept_ns _ _ Ka). reflexivity. }
@@ -1988,7 +2217,7 @@ Proof.
           destruct FM1 as (_ & NS1 & BB1). split; [intros k; reflexivity|split; [cbn; exact NS1|cbn; exact BB1]].
         + split; [cbn; rewrite LB1; lia|rewrite quirks_upd_cur; exact D1].
       - split; [cbn; exact LB1|]. exists []. split; [reflexivity|reflexivity]. }
-    { left. reflexivity. }
+    { nil_case. }
     { cbn. rewrite LCb. reflexivity. } { reflexivity. } { rewrite (kept_base _ _ Ka). exact HBf. }
     assert (NB : r2 <> upd_cur r1 cB).
     { destruct GB as (CB & _). destruct M2 as ((C2 & _) & EF2 & _). eapply neq_by_frames; [exact CB|exact C2|].
@@ -1998,7 +2227,159 @@ Proof.
     { destruct G0 as (C0 & _). destruct M2 as ((C2 & _) & EF2 & _). eapply neq_by_frames; [exact C0|exact C2|].
       rewrite EF2, EF0. cbn. rewrite (forall2_length _ _ _ KR2), (forall2_length _ _ _ Kb). lia. }
     split; [exact M2|]. split; [exact EV2|]. split; [eapply kept_trans; eassumption|eapply kept_all_trans; eassumption].
+  - (* throw: a statement, then the rest of the block that throws *)
+    intros s reg st reg1 s1 st2 rest0 x s' HS IHs HT IHt r c f restf below pre inner ft rest h jn below_t A FR EC EP CH HF HErr EB UJ LBT.
+    rewrite compile_block_cons2 in EC.
+    destruct (IHs r c f restf below pre _ A FR EC EP) as (r1 & c1 & f1 & rest1 & S1 & A1 & MV1 & P1 & K1).
+    assert (EC1 : f_code f1 = (pre ++ compile_stmt st) ++ IEnd :: compile_block (st2 :: rest0)).
+    { rewrite (moved_code _ _ MV1), EC, <- app_assoc. reflexivity. }
+    assert (EP1 : f_pos f1 = length (pre ++ compile_stmt st)) by (rewrite app_length, P1, EP; reflexivity).
+    destruct (end_run s1 reg1 r1 c1 f1 rest1 below _ _ A1 EC1 EP1) as (r2 & c2 & S2 & A2 & FR2).
+    destruct (chain_kept f restf inner ft rest (set_pos f1 (S (f_pos f1))) rest1 h (cv x) CH HF HErr) as (inner1 & ft1 & rest1' & CH1 & HF1 & HE1 & HH1 & LEN1 & KR1 & FB1).
+    { eapply moved_trans; [exact MV1|apply moved_set_pos]. } { exact K1. }
+    destruct (IHt r2 c2 (set_pos f1 (S (f_pos f1))) rest1 below (pre ++ compile_stmt st ++ [IEnd]) inner1 ft1 rest1' h jn below_t A2 FR2) as (r3 & c3 & rest3 & S3 & K3 & CA).
+    { cbn [set_pos f_code]. rewrite EC1, <- !app_assoc. reflexivity. }
+    { cbn [set_pos f_pos]. rewrite EP1, !app_length. cbn. lia. }
+    { exact CH1. } { exact HF1. } { exact HE1. } { exact EB. } { exact UJ. } { rewrite FB1. exact LBT. }
+    exists r3, c3, rest3. split; [eapply steps_trans; [exact S1|eapply steps_trans; [exact S2|exact S3]]|].
+    split; [eapply kept_all_trans; eassumption|]. rewrite LEN1, HH1 in CA. exact CA.
+  - (* throw v *)
+    intros s reg n e v s1 rest0 HN NL HE IHe NNv r c f restf below pre inner ft rest h jn below_t (MA & LB & top & EV & RR) FR EC EP CH HF HErr EB UJ LBT.
+    rewrite (compile_block_unary n e rest0 NL) in EC.
+    post_intro (IHe r c f restf pre _ MA EC EP) r1 c1 f1 rest1 S1 M1 EV1 MV1 P1 K1.
+    destruct (after_operands_code f f1 pre _ _ MV1 EC EP P1) as [EC1 EP1].
+    destruct M1 as (G1 & EF1 & MM1 & B1 & D1). destruct MA as (_ & _ & _ & B & _).
+    destruct (chain_kept f restf inner ft rest f1 rest1 h (cv v) CH HF HErr MV1 K1) as (inner1 & ft1 & rest1' & CH1 & HF1 & HE1 & HH1 & LEN1 & KR1 & FB1).
+    destruct (throw_run r1 c1 f1 rest1 _ _ (lower n) (cv v) (c_values c) inner1 ft1 rest1' h G1 EF1 EC1 EP1) as [S2 G2].
+    { rewrite lower_idem. exact HN. } { exact EV1. } { apply nonnil_cv; exact NNv. } { rewrite (moved_base _ _ MV1); exact B. }
+    { exact CH1. } { exact HF1. } { exact HE1. }
+    eexists _, _, rest1'. split; [eapply steps_trans; [exact S1|exact S2]|]. split; [exact KR1|].
+    split; [exact G2|]. split; [rewrite quirks_upd_cur; exact D1|]. rewrite HH1. split; [reflexivity|]. split.
+    + apply match_upd. rewrite <- HH1, <- LEN1. apply match_after_throw. rewrite <- CH1. exact MM1.
+    + exists jn. split; [|exact UJ]. cbn [push_value set_values set_frames c_values].
+      rewrite (moved_base _ _ MV1), <- LB, EV, app_length. replace (length top + length below - length below) with (length top) by lia.
+      rewrite skipn_app, skipn_all, Nat.sub_diag. cbn [skipn app]. rewrite EB. reflexivity.
+  - (* if true throw v *)
+    intros s reg n a b v s1 s2 rest0 HN HA IHa HB IHb NNv r c f restf below pre inner ft rest h jn below_t (MA & LB & top & EV & RR) FR EC EP CH HF HErr EB UJ LBT.
+    rewrite compile_block_exit in EC.
+    post_intro (IHa r c f restf pre _ MA EC EP) r1 c1 f1 rest1 S1 M1 EV1 MV1 P1 K1.
+    destruct (after_operands_code f f1 pre _ _ MV1 EC EP P1) as [EC1 EP1].
+    post_intro (IHb r1 c1 f1 rest1 (pre ++ compile_expr a) _ M1 EC1 EP1) r2 c2 f2 rest2 S2 M2 EV2 MV2 P2 K2.
+    destruct (after_operands_code f1 f2 _ _ _ MV2 EC1 EP1 P2) as [EC2 EP2].
+    destruct M2 as (G2 & EF2 & MM2 & B2 & D2). destruct MA as (_ & _ & _ & B & _).
+    rewrite EV1 in EV2.
+    destruct (chain_kept f restf inner ft rest f2 rest2 h (cv v) CH HF HErr) as (inner1 & ft1 & rest1' & CH1 & HF1 & HE1 & HH1 & LEN1 & KR1 & FB1).
+    { eapply moved_trans; eassumption. } { eapply kept_all_trans; eassumption. }
+    destruct (throw_if_run r2 c2 f2 rest2 _ _ (lower n) (cv v) (c_values c) inner1 ft1 rest1' h G2 EF2 EC2 EP2) as [S3 G3].
+    { rewrite lower_idem. exact HN. } { exact EV2. } { apply nonnil_cv; exact NNv. } { rewrite (moved_base _ _ MV2), (moved_base _ _ MV1); exact B. }
+    { exact CH1. } { exact HF1. } { exact HE1. }
+    eexists _, _, rest1'. split; [eapply steps_trans; [exact S1|eapply steps_trans; [exact S2|exact S3]]|]. split; [exact KR1|].
+    split; [exact G3|]. split; [rewrite quirks_upd_cur; exact D2|]. rewrite HH1. split; [reflexivity|]. split.
+    + apply match_upd. rewrite <- HH1, <- LEN1. apply match_after_throw. rewrite <- CH1. exact MM2.
+    + exists jn. split; [|exact UJ]. cbn [push_value set_values set_frames c_values].
+      rewrite (moved_base _ _ MV2), (moved_base _ _ MV1), <- LB, EV, app_length. replace (length top + length below - length below) with (length top) by lia.
+      rewrite skipn_app, skipn_all, Nat.sub_diag. cbn [skipn app]. rewrite EB. reflexivity.
+  - (* call {.. throw ..} as a statement *)
+    intros s reg n a b s1 x s2 rest0 HN NL HA IHa HT IHt r c f restf below pre inner ft rest h jn below_t (MA & LB & top & EV & RR) FR EC EP CH HF HErr EB UJ LBT.
+    rewrite (compile_block_unary n a rest0 NL) in EC.
+    post_intro (IHa r c f restf pre _ MA EC EP) r1 c1 f1 rest1 S1 M1 EV1 MV1 P1 K1.
+    destruct (after_operands_code f f1 pre _ _ MV1 EC EP P1) as [EC1 EP1].
+    destruct M1 as (G1 & EF1 & MM1 & B1 & D1). destruct MA as (_ & _ & _ & B & _).
+    set (c0 := set_values (set_frames c1 (set_pos f1 (S (f_pos f1)) :: rest1)) (c_values c)).
+    assert (TH : match get_variable c0 "_this" with Some t => t | None => VNil end = cv (this_of s1)).
+    { unfold get_variable. cbn [c_frames c0 set_values set_frames]. rewrite lookup_frames_set_pos.
+      destruct MM1 as [F1 _]. rewrite (lookup_match _ _ _ F1). unfold this_of.
+      change (lower "_this") with "_this". destruct (lookup_scopes "_this" (st_scopes s1)); reflexivity. }
+    destruct (unary_run r1 c1 f1 rest1 _ _ (lower n) (cv (RCode b)) (c_values c)
+                (push_frame c0 (mk_frame (cur_ns c0) (compile_block b) None None (mvars [("_this", this_of s1)]))) VNil G1 EF1 EC1 EP1 EV1) as [S2 G2].
+    { rewrite (moved_base _ _ MV1); exact B. } { discriminate. }
+    { rewrite lower_idem, HN. fold c0. cbn [cv]. unfold op_unary. cbn [String.eqb Ascii.eqb Bool.eqb]. rewrite TH. reflexivity. }
+    { destruct G1 as (_ & _ & _ & _ & _ & _ & SU); exact SU. }
+    destruct (chain_kept f restf inner ft rest (set_pos f1 (S (f_pos f1))) rest1 h (cv x) CH HF HErr) as (inner1 & ft1 & rest1' & CH1 & HF1 & HE1 & HH1 & LEN1 & KR1 & FB1).
+    { eapply moved_trans; [exact MV1|apply moved_set_pos]. } { exact K1. }
+    destruct (throw_in_scope s1 [("_this", this_of s1)] b x s2 _ c0 (set_pos f1 (S (f_pos f1))) rest1 inner1 ft1 rest1' h (top ++ jn) below_t IHt G2) as (r3 & c3 & rest3 & S3 & K3 & CA).
+    { rewrite quirks_upd_cur; exact D1. } { reflexivity. } { apply match_upd, match_set_pos; exact MM1. }
+    { exact CH1. } { exact HF1. } { exact HE1. } { cbn [c0 set_values c_values]. rewrite EV, EB, app_assoc. reflexivity. }
+    { apply Forall_app. split; [exact (fresh_under c top below EV FR)|exact UJ]. } { rewrite FB1. exact LBT. }
+    exists r3, c3, rest3. split; [eapply steps_trans; [exact S1|eapply steps_trans; [exact S2|exact S3]]|].
+    split; [eapply kept_all_trans; eassumption|]. rewrite LEN1, HH1 in CA. exact CA.
+  - (* if true then {.. throw ..} as a statement *)
+    intros s reg n a b blk s1 s2 x s3 rest0 HN HA IHa HB IHb HT IHt r c f restf below pre inner ft rest h jn below_t (MA & LB & top & EV & RR) FR EC EP CH HF HErr EB UJ LBT.
+    rewrite compile_block_exit in EC.
+    post_intro (IHa r c f restf pre _ MA EC EP) r1 c1 f1 rest1 S1 M1 EV1 MV1 P1 K1.
+    destruct (after_operands_code f f1 pre _ _ MV1 EC EP P1) as [EC1 EP1].
+    post_intro (IHb r1 c1 f1 rest1 (pre ++ compile_expr a) _ M1 EC1 EP1) r2 c2 f2 rest2 S2 M2 EV2 MV2 P2 K2.
+    destruct (after_operands_code f1 f2 _ _ _ MV2 EC1 EP1 P2) as [EC2 EP2].
+    destruct M2 as (G2 & EF2 & MM2 & B2 & D2). destruct MA as (_ & _ & _ & B & _).
+    rewrite EV1 in EV2.
+    set (c0 := set_values (set_frames c2 (set_pos f2 (S (f_pos f2)) :: rest2)) (c_values c)).
+    destruct (binary_run r2 c2 f2 rest2 _ _ (lower n) (cv (RIf true)) (cv (RCode blk)) (c_values c)
+                (push_frame c0 (mk_frame (cur_ns c0) (compile_block blk) None None (mvars []))) VNil G2 EF2 EC2 EP2 EV2) as [S3 G3].
+    { rewrite (moved_base _ _ MV2), (moved_base _ _ MV1); exact B. } { discriminate. } { discriminate. } { rewrite lower_idem, HN. reflexivity. }
+    { destruct G2 as (_ & _ & _ & _ & _ & _ & SU); exact SU. }
+    destruct (chain_kept f restf inner ft rest (set_pos f2 (S (f_pos f2))) rest2 h (cv x) CH HF HErr) as (inner1 & ft1 & rest1' & CH1 & HF1 & HE1 & HH1 & LEN1 & KR1 & FB1).
+    { eapply moved_trans; [exact MV1|eapply moved_trans; [exact MV2|apply moved_set_pos]]. } { eapply kept_all_trans; eassumption. }
+    destruct (throw_in_scope s2 [] blk x s3 _ c0 (set_pos f2 (S (f_pos f2))) rest2 inner1 ft1 rest1' h (top ++ jn) below_t IHt G3) as (r4 & c4 & rest4 & S4 & K4 & CA).
+    { rewrite quirks_upd_cur; exact D2. } { reflexivity. } { apply match_upd, match_set_pos; exact MM2. }
+    { exact CH1. } { exact HF1. } { exact HE1. } { cbn [c0 set_values c_values]. rewrite EV, EB, app_assoc. reflexivity. }
+    { apply Forall_app. split; [exact (fresh_under c top below EV FR)|exact UJ]. } { rewrite FB1. exact LBT. }
+    exists r4, c4, rest4. split; [eapply steps_trans; [exact S1|eapply steps_trans; [exact S2|eapply steps_trans; [exact S3|exact S4]]]|].
+    split; [eapply kept_all_trans; eassumption|]. rewrite LEN1, HH1 in CA. exact CA.
+  - (* if c then {..} else {..} as a statement, the chosen block throws *)
+    intros s reg n a b cnd x0 y0 s1 s2 x s3 rest0 HN HA IHa HB IHb HT IHt r c f restf below pre inner ft rest h jn below_t (MA & LB & top & EV & RR) FR EC EP CH HF HErr EB UJ LBT.
+    rewrite compile_block_exit in EC.
+    post_intro (IHa r c f restf pre _ MA EC EP) r1 c1 f1 rest1 S1 M1 EV1 MV1 P1 K1.
+    destruct (after_operands_code f f1 pre _ _ MV1 EC EP P1) as [EC1 EP1].
+    post_intro (IHb r1 c1 f1 rest1 (pre ++ compile_expr a) _ M1 EC1 EP1) r2 c2 f2 rest2 S2 M2 EV2 MV2 P2 K2.
+    destruct (after_operands_code f1 f2 _ _ _ MV2 EC1 EP1 P2) as [EC2 EP2].
+    destruct M2 as (G2 & EF2 & MM2 & B2 & D2). destruct MA as (_ & _ & _ & B & _).
+    rewrite EV1 in EV2.
+    set (c0 := set_values (set_frames c2 (set_pos f2 (S (f_pos f2)) :: rest2)) (c_values c)).
+    destruct (binary_run r2 c2 f2 rest2 _ _ (lower n) (cv (RIf cnd)) (cv (RArr [RCode x0; RCode y0])) (c_values c)
+                (push_frame c0 (mk_frame (cur_ns c0) (compile_block (if cnd then x0 else y0)) None None (mvars []))) VNil G2 EF2 EC2 EP2 EV2) as [S3 G3].
+    { rewrite (moved_base _ _ MV2), (moved_base _ _ MV1); exact B. } { discriminate. } { discriminate. }
+    { rewrite lower_idem, HN. destruct cnd; reflexivity. }
+    { destruct G2 as (_ & _ & _ & _ & _ & _ & SU); exact SU. }
+    destruct (chain_kept f restf inner ft rest (set_pos f2 (S (f_pos f2))) rest2 h (cv x) CH HF HErr) as (inner1 & ft1 & rest1' & CH1 & HF1 & HE1 & HH1 & LEN1 & KR1 & FB1).
+    { eapply moved_trans; [exact MV1|eapply moved_trans; [exact MV2|apply moved_set_pos]]. } { eapply kept_all_trans; eassumption. }
+    destruct (throw_in_scope s2 [] (if cnd then x0 else y0) x s3 _ c0 (set_pos f2 (S (f_pos f2))) rest2 inner1 ft1 rest1' h (top ++ jn) below_t IHt G3) as (r4 & c4 & rest4 & S4 & K4 & CA).
+    { rewrite quirks_upd_cur; exact D2. } { reflexivity. } { apply match_upd, match_set_pos; exact MM2. }
+    { exact CH1. } { exact HF1. } { exact HE1. } { cbn [c0 set_values c_values]. rewrite EV, EB, app_assoc. reflexivity. }
+    { apply Forall_app. split; [exact (fresh_under c top below EV FR)|exact UJ]. } { rewrite FB1. exact LBT. }
+    exists r4, c4, rest4. split; [eapply steps_trans; [exact S1|eapply steps_trans; [exact S2|eapply steps_trans; [exact S3|exact S4]]]|].
+    split; [eapply kept_all_trans; eassumption|]. rewrite LEN1, HH1 in CA. exact CA.
+  - (* try {.. throw ..} catch {.. throw ..} as a statement: the handler's throw goes on outwards *)
+    intros s reg n a b body hb s1 s2 x s3 y s4 rest0 HN HA IHa HB IHb HX IHx HY IHy r c f restf below pre inner ft rest h jn below_t (MA & LB & top & EV & RR) FR EC EP CH HF HErr EB UJ LBT.
+    rewrite compile_block_exit in EC.
+    post_intro (IHa r c f restf pre _ MA EC EP) r1 c1 f1 rest1 S1 M1 EV1 MV1 P1 K1.
+    destruct (after_operands_code f f1 pre _ _ MV1 EC EP P1) as [EC1 EP1].
+    post_intro (IHb r1 c1 f1 rest1 (pre ++ compile_expr a) _ M1 EC1 EP1) r2 c2 f2 rest2 S2 M2 EV2 MV2 P2 K2.
+    destruct (after_operands_code f1 f2 _ _ _ MV2 EC1 EP1 P2) as [EC2 EP2].
+    destruct M2 as (G2 & EF2 & MM2 & B2 & D2). destruct MA as (_ & _ & _ & B & _).
+    rewrite EV1 in EV2.
+    set (c0 := set_values (set_frames c2 (set_pos f2 (S (f_pos f2)) :: rest2)) (c_values c)).
+    set (newf := mk_frame (cur_ns c0) (compile_block body) None (Some (ECatch (compile_block hb))) (mvars [])).
+    destruct (binary_run r2 c2 f2 rest2 _ _ (lower n) (cv (RTry body)) (cv (RCode hb)) (c_values c)
+                (push_frame c0 newf) VNil G2 EF2 EC2 EP2 EV2) as [S3 G3].
+    { rewrite (moved_base _ _ MV2), (moved_base _ _ MV1); exact B. } { discriminate. } { discriminate. }
+    { rewrite lower_idem, HN. reflexivity. }
+    { destruct G2 as (_ & _ & _ & _ & _ & _ & SU); exact SU. }
+    destruct (throw_in_try s2 body x s3 _ c0 (set_pos f2 (S (f_pos f2))) rest2 (compile_block hb) IHx G3) as (r4 & c4 & rest4 & S4 & K4 & CA).
+    { rewrite quirks_upd_cur; exact D2. } { reflexivity. } { apply match_upd, match_set_pos; exact MM2. }
+    inversion K4 as [|fa fc4 ra rest4' Ka Kb Ea Eb]; subst.
+    fold newf in CA. set (hf := handler_frame (set_base newf (length (c_values c0))) (compile_block hb) (cv x)) in *.
+    destruct (caught_at _ _ _ _ _ _ CA eq_refl) as [A5 FR5].
+    destruct (chain_kept f restf inner ft rest fc4 rest4' h (cv y) CH HF HErr) as (inner1 & ft1 & rest1' & CH1 & HF1 & HE1 & HH1 & LEN1 & KR1 & FB1).
+    { eapply moved_trans; [exact MV1|eapply moved_trans; [exact MV2|eapply moved_trans; [apply (moved_set_pos f2 (S (f_pos f2)))|apply kept_moved; exact Ka]]]. }
+    { eapply kept_all_trans; [exact K1|eapply kept_all_trans; eassumption]. }
+    destruct (IHy r4 c4 hf (fc4 :: rest4') (c_values c0) [] (hf :: inner1) ft1 rest1' h (top ++ jn) below_t A5 FR5 eq_refl eq_refl) as (r5 & c5 & rest5 & S5 & K5 & CA5).
+    { cbn [app]. rewrite CH1. reflexivity. } { constructor; [reflexivity|exact HF1]. } { exact HE1. }
+    { cbn [c0 set_values c_values]. rewrite EV, app_assoc. reflexivity. }
+    { apply Forall_app. split; [exact (fresh_under c top _ EV FR)|exact UJ]. } { rewrite FB1. exact LBT. }
+    exists r5, c5, rest5. split; [eapply steps_trans; [exact S1|eapply steps_trans; [exact S2|eapply steps_trans; [exact S3|eapply steps_trans; [exact S4|exact S5]]]]|].
+    split; [eapply kept_all_trans; eassumption|]. cbn [length] in CA5. rewrite drop_scopes_S, LEN1, HH1 in CA5. exact CA5.
 Qed.
+
 
 (* ---------------------------------------------------------------- the reference semantics *)
 Lemma in_scope_out f s sc b out s2 : eval_block f (push_scope s sc) b RNil = (oc out, s2) ->
@@ -2118,6 +2499,37 @@ Proof. reflexivity. Qed.
 Lemma leaf_first_cons b : leaf_first b -> exists st rest, b = st :: rest.
 Proof. intros (i & code & E & _). destruct b as [|st rest]; [discriminate E|eauto]. Qed.
 
+(* try-catch in the reference semantics, named *)
+Definition finish_f (o:outcome) (s1:sstate) : outcome * sstate :=
+  match o with
+  | ONormal RNone => (ONormal RNil, pop_scope s1)
+  | OExit v => (ONormal v, pop_scope s1)
+  | OBreak name v => match st_scopes s1 with
+                     | sc' :: _ => if String.eqb (sc_name sc') name then (ONormal v, pop_scope s1) else (OBreak name v, pop_scope s1)
+                     | [] => (OBreak name v, pop_scope s1) end
+  | other => (other, pop_scope s1) end.
+Definition handler_after (p:outcome * sstate) : outcome * sstate := let '(o2, s2) := p in finish_f o2 s2.
+Definition catch_after (f:nat) (h:list stmt) (p:outcome * sstate) : outcome * sstate :=
+  let '(o, s1) := p in
+  match o with
+  | OThrow x => handler_after (eval_block f (set_top_vars s1 [("_exception", x)]) h RNil)
+  | other => finish_f other s1 end.
+Lemma eval_binary_catch f F s body h :
+  eval_binary (S f) s "catch" (RTry body) (RCode h) (in_scope_f F) plain_scope_f =
+  catch_after f h (eval_block f (push_scope s (plain_scope_f s [])) body RNil).
+Proof. reflexivity. Qed.
+Lemma handler_after_out out s : handler_after (oc out, s) = (ONormal (val_of out), pop_scope s).
+Proof. destruct out as [reg|v]; cbn; [destruct reg; reflexivity|reflexivity]. Qed.
+Lemma handler_after_throw y s : handler_after (OThrow y, s) = (OThrow y, pop_scope s).
+Proof. reflexivity. Qed.
+Lemma catch_after_out f h out s : catch_after f h (oc out, s) = (ONormal (val_of out), pop_scope s).
+Proof. destruct out as [reg|v]; cbn; [destruct reg; reflexivity|reflexivity]. Qed.
+Lemma catch_after_throw f h x s : catch_after f h (OThrow x, s) = handler_after (eval_block f (set_top_vars s [("_exception", x)]) h RNil).
+Proof. reflexivity. Qed.
+Lemma in_scope_throw f s sc b x s2 : eval_block f (push_scope s sc) b RNil = (OThrow x, s2) ->
+  in_scope_f f s sc b = (OThrow x, pop_scope s2).
+Proof. intros H. unfold in_scope_f. rewrite H. reflexivity. Qed.
+
 Theorem ref_runs_z :
   (forall s e v s', zev s e v s' -> exists f0, forall f, f0 <= f -> eval f s e = (ONormal v, s')) /\
   (forall s l vs s', zevs s l vs s' -> exists f0, forall f, f0 <= f -> forall acc, go_arr f s l acc = (ONormal (RArr (rev acc ++ vs)), s')) /\
@@ -2129,7 +2541,8 @@ Theorem ref_runs_z :
   (forall var to st s x first body acc s', zfor var to st s x first body acc s' -> exists f0 k0, forall f, f0 <= f -> forall k, k0 <= k ->
       for_loop_f f var to st body k s x first = (ONormal acc, s')) /\
   (forall cond body s first v s', zwhile cond body s first v s' -> exists f0 k0, forall f, f0 <= f -> forall k, k0 <= k -> forall n, first = Nat.eqb n 0 ->
-      while_loop_f f cond body k s n = (ONormal v, s')).
+      while_loop_f f cond body k s n = (ONormal v, s')) /\
+  (forall s reg b x s', zthrow s reg b x s' -> exists f0, forall f, f0 <= f -> eval_block f s b reg = (OThrow x, s')).
 Proof.
   apply z_ind.
   - (* pure *) intros s e v HE. exists (esize e). intros f L. exact (proj2 (proj1 (pure_ref _ _) e v HE) s f (renv_ok_of s) L).
@@ -2261,6 +2674,19 @@ Proof.
     rewrite eval_S_binary, (IHa (S f)), (IHb (S f)) by lia. rewrite HN. reflexivity.
   - (* private "x" *) intros s n a x s1 HN NL HA [fa IHa]. exists (S (S fa)). intros [|[|f]] L; try lia.
     rewrite (eval_S_unary _ _ _ _ NL), (IHa (S f)) by lia. rewrite HN. reflexivity.
+  - (* try {..} *) intros s n a b s1 HN NL HA [fa IHa]. exists (S (S fa)). intros [|[|f]] L; try lia.
+    rewrite (eval_S_unary _ _ _ _ NL), (IHa (S f)) by lia. rewrite HN. reflexivity.
+  - (* try {..} catch {..}, no throw *) intros s n a b body h s1 s2 out s3 HN HA [fa IHa] HB [fb IHb] HX [fx IHx]. exists (S (S (fa + fb + fx))). intros [|[|f]] L; try lia.
+    rewrite eval_S_binary, (IHa (S f)), (IHb (S f)) by lia. rewrite HN.
+    transitivity (eval_binary (S f) s2 "catch" (RTry body) (RCode h) (in_scope_f (S f)) plain_scope_f); [reflexivity|].
+    rewrite eval_binary_catch. change (push_scope s2 (plain_scope_f s2 [])) with (enter s2 []). rewrite (IHx f) by lia.
+    apply catch_after_out.
+  - (* try {.. throw ..} catch {..} *) intros s n a b body h s1 s2 x s3 out s4 HN HA [fa IHa] HB [fb IHb] HX [fx IHx] HH [fh IHh].
+    exists (S (S (fa + fb + fx + fh))). intros [|[|f]] L; try lia.
+    rewrite eval_S_binary, (IHa (S f)), (IHb (S f)) by lia. rewrite HN.
+    transitivity (eval_binary (S f) s2 "catch" (RTry body) (RCode h) (in_scope_f (S f)) plain_scope_f); [reflexivity|].
+    rewrite eval_binary_catch. change (push_scope s2 (plain_scope_f s2 [])) with (enter s2 []). rewrite (IHx f) by lia.
+    rewrite catch_after_throw, (IHh f) by lia. apply handler_after_out.
   - (* no elements *) intros s. exists 0. intros f _ acc. cbn. rewrite app_nil_r. reflexivity.
   - (* elements *) intros s e v s1 l vs s2 HE [fe IHe] NN HL [fl IHl]. exists (fe + fl). intros f L acc.
     cbn [go_arr]. rewrite (IHe f) by lia. fold (go_arr f).
@@ -2332,4 +2758,38 @@ Proof.
     change (push_scope s (plain_scope_f s [])) with (enter s []).
     replace (match n with O => RNil | _ => RNone end) with (if first then RNil else RNone) by (subst first; destruct n; reflexivity).
     rewrite (IHc f) by lia. cbn [oc]. rewrite (IHb f) by lia. reflexivity.
+  - (* throw: a statement, then the rest *) intros s reg st reg1 s1 st2 rest x s' HS [fs IHs] HT [ft IHt]. exists (S (fs + ft)). intros [|f] L; [lia|].
+    rewrite (IHs f) by lia. unfold cont. apply IHt. lia.
+  - (* throw v *) intros s reg n e v s1 rest HN NL HE [fe IHe] NNv. exists (S (S (S fe))). intros [|f] L; [lia|]. cbn [eval_block].
+    destruct f as [|f]; [lia|]. rewrite (eval_S_unary _ _ _ _ NL), (IHe f) by lia. rewrite HN.
+    destruct f as [|f]; [lia|]. destruct NNv as [A1 A2]. destruct v; try contradiction; reflexivity.
+  - (* if true throw v *) intros s reg n a b v s1 s2 rest HN HA [fa IHa] HB [fb IHb] NNv. exists (S (S (S (fa + fb)))). intros [|f] L; [lia|]. cbn [eval_block].
+    destruct f as [|f]; [lia|]. rewrite eval_S_binary, (IHa f), (IHb f) by lia. rewrite HN.
+    destruct f as [|f]; [lia|]. destruct NNv as [A1 A2]. destruct v; try contradiction; reflexivity.
+  - (* call {.. throw ..} *) intros s reg n a b s1 x s2 rest HN NL HA [fa IHa] HT [ft IHt]. exists (S (S (S (fa + ft)))). intros [|f] L; [lia|]. cbn [eval_block].
+    destruct f as [|f]; [lia|]. rewrite (eval_S_unary _ _ _ _ NL), (IHa f) by lia. rewrite HN.
+    destruct f as [|f]; [lia|].
+    change (eval_unary (S f) s1 "call" (RCode b) (in_scope_f (S f)) plain_scope_f)
+      with (in_scope_f (S f) s1 (plain_scope_f s1 [("_this", this_of s1)]) b).
+    rewrite (in_scope_throw (S f) s1 _ b x s2) by (apply IHt; lia). reflexivity.
+  - (* if true then {.. throw ..} *) intros s reg n a b blk s1 s2 x s3 rest HN HA [fa IHa] HB [fb IHb] HT [ft IHt]. exists (S (S (S (fa + fb + ft)))).
+    intros [|f] L; [lia|]. cbn [eval_block].
+    destruct f as [|f]; [lia|]. rewrite eval_S_binary, (IHa f), (IHb f) by lia. rewrite HN.
+    destruct f as [|f]; [lia|].
+    change (eval_binary (S f) s2 "then" (RIf true) (RCode blk) (in_scope_f (S f)) plain_scope_f)
+      with (in_scope_f (S f) s2 (plain_scope_f s2 []) blk).
+    rewrite (in_scope_throw (S f) s2 _ blk x s3) by (apply IHt; lia). reflexivity.
+  - (* if c then {..} else {..}, the chosen block throws *) intros s reg n a b c x0 y0 s1 s2 x s3 rest HN HA [fa IHa] HB [fb IHb] HT [ft IHt].
+    exists (S (S (S (fa + fb + ft)))). intros [|f] L; [lia|]. cbn [eval_block].
+    destruct f as [|f]; [lia|]. rewrite eval_S_binary, (IHa f), (IHb f) by lia. rewrite HN.
+    destruct f as [|f]; [lia|].
+    change (eval_binary (S f) s2 "then" (RIf c) (RArr [RCode x0; RCode y0]) (in_scope_f (S f)) plain_scope_f)
+      with (in_scope_f (S f) s2 (plain_scope_f s2 []) (if c then x0 else y0)).
+    rewrite (in_scope_throw (S f) s2 _ (if c then x0 else y0) x s3) by (apply IHt; lia). reflexivity.
+  - (* try {.. throw ..} catch {.. throw ..} *) intros s reg n a b body h s1 s2 x s3 y s4 rest HN HA [fa IHa] HB [fb IHb] HX [fx IHx] HY [fy IHy].
+    exists (S (S (S (fa + fb + fx + fy)))). intros [|f] L; [lia|]. cbn [eval_block].
+    destruct f as [|f]; [lia|]. rewrite eval_S_binary, (IHa f), (IHb f) by lia. rewrite HN.
+    destruct f as [|f]; [lia|].
+    rewrite eval_binary_catch. change (push_scope s2 (plain_scope_f s2 [])) with (enter s2 []). rewrite (IHx f) by lia.
+    rewrite catch_after_throw, (IHy f) by lia. rewrite handler_after_throw. reflexivity.
 Qed.
